@@ -343,6 +343,18 @@ def normalise_renames(facts):
         cs = [sp for sp, raw in fresh if sp.rsplit("::", 1)[1] == last and sp not in ren.values() and "::" in sp]
         if len(cs) == 1 and [m2 for m2 in missing if m2.rsplit("::", 1)[1] == last] == [m]:
             ren[m] = cs[0]
+    # third tier - renamed and its result type reshaped (a tuple result turned into a named struct): the only pinned name missing from an
+    # impl / module and the only new function there that takes the same arguments
+    for m in missing:
+        if m in ren:
+            continue
+        par = m.rsplit("::", 1)[0]
+        if [m2 for m2 in missing if m2.rsplit("::", 1)[0] == par and m2 not in ren] != [m]:
+            continue
+        args_of = lambda sg: list(sg)[:-1]
+        cs = [sp for sp, raw in fresh if sp.rsplit("::", 1)[0] == par and sp not in ren.values() and args_of(_sig(raw)) == args_of(sigs[m])]
+        if len(cs) == 1 and len([sp for sp, raw in fresh if sp.rsplit("::", 1)[0] == par and sp not in ren.values()]) <= 2:
+            ren[m] = cs[0]
     if not ren:
         return {}
     by_new = {n: m for m, n in ren.items()}
